@@ -215,6 +215,23 @@ theorem strBody_first_items (q : Nat) (hq : q = 34 ∨ q = 39) : ∀ (its : List
     rw [htt, strBody_first_step q _ _ (itemLens_item q hq i its' hi h' rest), drop_length_append, ih h' rest]
     simp [flat_cons]
 
+theorem string_first_items (q : Nat) (hq : q = 34 ∨ q = 39) (its : List SItem) (h : ∀ i ∈ its, i.WF q) (rest : Cps) :
+    reSTRING.first (q :: (flat its ++ q :: rest)) = some ((flat its).length + 2) := by
+  have hbody : (Re.seq (strBody q) (Re.cls false [(q, q)])).first (flat its ++ q :: rest) =
+      some ((flat its).length + 1) := by
+    apply first_seq_some (l1 := (flat its).length) (l2 := 1)
+    · exact strBody_first_items q hq its h rest
+    · rw [drop_length_append, first_cls_cons]; simp [inCls_pt]
+  rw [reSTRING_shape, first_alt]
+  rcases hq with rfl | rfl
+  · rw [first_seq_cls_cons]
+    simp only [inCls_pt, decide_true, if_true, hbody, Option.map_some, Option.some_or]
+    congr 1; omega
+  · rw [first_seq_cls_cons, first_seq_cls_cons]
+    simp only [inCls_pt, decide_true, if_true, hbody, Option.map_some]
+    simp
+    omega
+
 /-- **STRING class** (bodies with escapes and line continuations): a quote, a body made of ordinary code points,
 backslash + a code point that is not a line break, and backslash + line break, then the same quote is scanned as one
 STRING token, whatever follows -/
